@@ -228,6 +228,7 @@ type Terminal struct {
 
 	Gfx        []GfxEvent
 	SixelCount int
+	SixelAt    [][3]int // row, col (cursor when the sixel arrived), body length
 
 	replies []byte
 
@@ -1825,6 +1826,9 @@ func (t *Terminal) dcs(body string) {
 		t.gated("sixel", t.Caps.Sixel)
 		if t.Caps.Sixel {
 			t.SixelCount++
+			if len(t.SixelAt) < 100000 {
+				t.SixelAt = append(t.SixelAt, [3]int{t.R, t.C, len(body)})
+			}
 		}
 	default:
 		t.unknown()
